@@ -87,7 +87,7 @@ CLAIMED = {
    design="5/C15"),
  "C20": dict(
    text="Proof level on the whole redaction chain, for every configuration content (any number of listeners, filter chains, context sets and clusters): redactTLSConfig leaves a context with an empty key or the placeholder; redactListener, redactedListeners, redactedListenerSlice, redactedClusters, redactedMosnConfig and redactedCopy return values in which every TLS position - cluster-manager context, each cluster's context, and per filter chain the single context, the context set and the serialised copy of it - is redacted, built only from freshly allocated storage where they write (deep copy), with an empty frame (`assigns nothing`: no object that existed before the call is modified, so the live and the persisted configuration keep the real key); getMOSNConfigRedacted returns a redacted value for every section name; the value handed to json.Marshal in DumpJSON and to the admin callback in HandleMOSNConfig is redacted (call-site obligations); the writers of conf.MosnConfig keep the representation invariant that no cluster is stored inside it. Unbounded loop invariants with separation (apartness) clauses.",
-   note="Assumed: sequential execution under configLock; encoding/json serialises exactly the value it is handed; TLS material inside opaque parts of the configuration (json.RawMessage, map[string]interface{} filter configs, ExtendConfigs, routers) is outside the contracts; that no other TLS-typed field exists in the type graph of effectiveConfig is not itself proved (positions enumerated by hand from pkg/config/v2). Not covered: pkg/admin/server handlers beyond their use of DumpJSON/HandleMOSNConfig, SDS secrets.",
+   note="Assumed: sequential execution under configLock; encoding/json serialises exactly the value it is handed; TLS material inside opaque parts of the configuration (json.RawMessage, map[string]interface{} filter configs, ExtendConfigs, routers) is outside the contracts; the list of TLS positions the contracts account for is compared on every run with the access paths to v2.TLSConfig enumerated from go/types (decided by enumeration, not by SMT; the walk stops at interface-typed fields, each listed in the evidence). Not covered: pkg/admin/server handlers beyond their use of DumpJSON/HandleMOSNConfig, SDS secrets.",
    technique="contract-based deductive verification (WP over go/ssa, SMT) with heap frames, freshness and separation invariants; model-free replay of failed obligations against the real dump entry points",
    design="5/C20"),
  "C03": dict(
